@@ -20,7 +20,7 @@ def check(tr):
         insts = [([1, 2], 3, ["cfg1", "cfg2", "up1", "up2", "search"]), ([1, 2, 3], 2, ["cfg1", "up1", "up2", "search"])]
     for conn, ms, req in insts:
         r = run_tlc("ServerImpl", cfg(conn, ms, req, INV), coverage=True, timeout=3000, name="implB")
-        never = [a for a in ("Open", "PeerSend", "PeerClose", "TurnWake", "Recv", "RecvEnd", "CleanWake", "TimerFire")
+        never = [a for a in ("Open", "PeerSend", "PeerClose", "TurnWake", "Recv", "Deliver", "RecvEnd", "CleanWake", "CleanGotLock", "TimerFire", "ForeignAcquire")
                  if r.coverage.get(a, 0) == 0]
         if never:
             raise MachineryError("ServerImpl: actions never taken (vacuous run): %s" % never)
